@@ -15,6 +15,7 @@ import traceback
 
 sys.path.insert(0, os.path.dirname(os.path.abspath(__file__)))
 import docgen          # noqa: E402
+import syntaxgen       # noqa: E402
 import tracelib        # noqa: E402
 import vlib            # noqa: E402
 from vlib import ToolError, log  # noqa: E402
@@ -484,6 +485,112 @@ def c08(tier, seed):
                       extra_note="random nested blocks (if/elseif/else, foreach, assign, raise, send #_internal, log, script) in "
                                  "onentry/onexit/transition/initial/history-default bodies, an ERR injected at each expression position",
                       min_counts={"microsteps": 500, "internal_events": 100}, nontrivial_key="internal_events")
+
+
+# ---------------------------------------------------------------------------------------------
+# C04 / C05: Mirror.tla (reader / serializer translation validation)
+# ---------------------------------------------------------------------------------------------
+def run_dump_jobs(jobs, wd, name="dump"):
+    import subprocess
+    jf = os.path.join(wd, name + ".ndjson")
+    of = os.path.join(wd, name + ".out.ndjson")
+    with open(jf, "w") as f:
+        for j in jobs:
+            f.write(json.dumps(j) + "\n")
+    p = subprocess.run(["timeout", "900", vlib.VH, "dump", jf, of], stdout=subprocess.PIPE, stderr=subprocess.STDOUT, text=True)
+    if p.returncode != 0:
+        raise ToolError("vh dump failed: %s" % p.stdout[-1000:])
+    res = {}
+    for line in open(of):
+        r = json.loads(line)
+        res[r["id"]] = r
+    return res
+
+
+def mirror_validate(pairs, wd, name="pairs"):
+    """pairs: list of dicts {hasD, D, M, ref}; -> (tlc result, {index: class or 'ok'})"""
+    with open(os.path.join(wd, name + ".ndjson"), "w") as f:
+        for p in pairs:
+            f.write(json.dumps(p) + "\n")
+    res = vlib.run_tlc("Mirror", "Mirror.cfg", wd, env={"PAIRS": name + ".ndjson"}, timeout=1200)
+    verdict = {}
+    for t in vlib.tlc_tuples(res["text"], "ACCEPT"):
+        verdict[vlib.parse_tla_value(t)[1]] = "ok"
+    for t in vlib.tlc_tuples(res["text"], "REJECT"):
+        v = vlib.parse_tla_value(t)
+        verdict[v[1]] = v[2]
+    res["text"] = ""
+    if len(verdict) != len(pairs):
+        raise ToolError("Mirror judged %d of %d pairs" % (len(verdict), len(pairs)))
+    return res, verdict
+
+
+EMPTY_D = {"name": "", "datamodel": "", "binding": "", "script": [], "states": []}
+
+
+@check("C04")
+def c04(tier, seed):
+    t0 = time.time()
+    wd = vlib.workdir("C04")
+    V = vlib.Verdicts("C04")
+    vlib.build_harness()
+    ndocs = 60 if tier == "quick" else 1500
+    jobs = []
+    meta = []
+    incdir = os.path.join(wd, "inc")
+    os.makedirs(incdir)
+    for di in range(ndocs):
+        root, ab = syntaxgen.gen_doc(seed * 100000 + di, size=6 + di % 12)
+        D = syntaxgen.abstract_to_D(ab, root)
+        for vi, variant in enumerate(syntaxgen.VARIANTS):
+            sub = os.path.join(incdir, "d%d" % di)
+            text, frags = syntaxgen.serialize(root, variant, seed=seed + di * 31 + vi, frag_dir=sub)
+            if frags:
+                os.makedirs(sub, exist_ok=True)
+                for fn, ft in frags.items():
+                    open(os.path.join(sub, fn), "w").write(ft)
+            jid = len(jobs) + 1
+            jobs.append({"id": jid, "xml": text, "include": [sub]})
+            meta.append((di, variant, D, text))
+    results = run_dump_jobs(jobs, wd)
+    pairs = []
+    canon_index = {}
+    index_of = {}
+    for jid, (di, variant, D, text) in enumerate(meta, start=1):
+        r = results.get(jid, {})
+        if "model" not in r:
+            V.report("reader-rejects:%s" % variant, "document %d variant %s is not accepted: %s" % (di, variant, str(r)[:300]),
+                     {"scxml": text, "variant": variant, "result": r})
+            continue
+        M = syntaxgen.model_to_M(r["model"])
+        pairs.append({"hasD": True, "D": D, "M": M, "ref": canon_index.get(di, 0) if variant != "canon" else 0})
+        index_of[len(pairs)] = jid
+        if variant == "canon":
+            canon_index[di] = len(pairs)
+    tv, verdict = mirror_validate(pairs, wd)
+    ok = 0
+    for idx, cls in verdict.items():
+        if cls == "ok":
+            ok += 1
+            continue
+        di, variant, D, text = meta[index_of[idx] - 1]
+        V.report("%s:%s" % (cls, variant), "document %d variant %s: model does not mirror the document (%s)" % (di, variant, cls),
+                 {"scxml": text, "variant": variant, "class": cls, "D": D, "M": pairs[idx - 1]["M"]})
+    if ok == 0:
+        raise ToolError("C04: no pair accepted")
+    rc = V.finish()
+    nstates = sum(len(m[2]["states"]) for m in meta if m[1] == "canon")
+    cov = {"programs": ndocs, "disagreements_checked": len(pairs) - ok,
+           "samples": [{"variant": meta[i][1], "scxml": meta[i][3][:600]} for i in (0, 3, 8) if i < len(meta)],
+           "states": tv["distinct"], "transitions": tv["states"], "traces_validated_against_impl": ok,
+           "evaluations": len(pairs), "distinct_nontrivial": ok,
+           "rule": "random documents over all element kinds and attribute combinations (%d documents, %d states in total), each "
+                   "serialised in %d lexical variants %s; the reader's model is dumped through its public fields and TLC evaluates "
+                   "Mirrors(D, M) and SameModel(M_variant, M_canon) (Mirror.tla)" % (ndocs, nstates, len(syntaxgen.VARIANTS), syntaxgen.VARIANTS)}
+    vlib.write_evidence("C04", tier, seed, "translation_validation", cov, time.time() - t0, len(V.violations),
+                        ["the dump of the model through public fields (harness/src/dump.rs) and its canonicalisation "
+                         "(tools/syntaxgen.py) are faithful", "documents are those the generator produces"])
+    return rc
 
 
 # ---------------------------------------------------------------------------------------------
